@@ -627,6 +627,13 @@ func (broker *Broker) scan() []sts.Hashed {
 			// Add any that might have failed the hash calculation last time
 			wrapped = append(wrapped, &hashFile{File: cached})
 		case cached.IsDone() && broker.canDelete(cached):
+			if f, serr := store.Sync(cached); f != nil ||
+				(serr != nil && !store.IsNotExist(serr)) {
+				// Only the version that was confirmed may be deleted; a file
+				// that changed since is handled as a new file by this scan
+				log.Debug("Not deleting changed file:", cached.GetName())
+				break
+			}
 			err = broker.Conf.Store.Remove(cached)
 			if err != nil {
 				broker.error("Failed to delete aged file:", cached.GetName())
@@ -1303,6 +1310,12 @@ func (broker *Broker) finish(file sts.Polled) {
 		// picked up again to be sent redundantly.
 		broker.Conf.Cache.Done(file.GetName(), func(cached sts.Cached) {
 			if broker.canDelete(cached) {
+				if f, err := broker.Conf.Store.Sync(cached); f != nil || err != nil {
+					// What is on disk now is not what was confirmed (or can't be
+					// checked); a changed file will be picked up by the next scan
+					log.Debug("Not deleting changed file:", cached.GetName())
+					return
+				}
 				if err := broker.Conf.Store.Remove(cached); err != nil {
 					broker.error("Failed to delete:", cached.GetName(), err.Error())
 					return
